@@ -10,8 +10,24 @@
 #include "psc/types/type_definitions.h"
 #include "psc/types/types.h"
 
+static PSC::int_t parseIntegerLiteral(const Token &token) {
+    try {
+        return std::stol(token.value);
+    } catch (const std::out_of_range&) {
+        throw PSC::SyntaxError(token, "Integer literal out of range");
+    }
+}
+
+static PSC::real_t parseRealLiteral(const Token &token) {
+    try {
+        return std::stod(token.value);
+    } catch (const std::out_of_range&) {
+        throw PSC::SyntaxError(token, "Real literal out of range");
+    }
+}
+
 IntegerNode::IntegerNode(const Token &token)
-    : Node(token), valueInt(std::stol(token.value))
+    : Node(token), valueInt(parseIntegerLiteral(token))
 {}
 
 std::unique_ptr<NodeResult> IntegerNode::evaluate(PSC::Context&) {
@@ -20,7 +36,7 @@ std::unique_ptr<NodeResult> IntegerNode::evaluate(PSC::Context&) {
 
 
 RealNode::RealNode(const Token &token)
-    : Node(token), valueReal(std::stod(token.value))
+    : Node(token), valueReal(parseRealLiteral(token))
 {}
 
 std::unique_ptr<NodeResult> RealNode::evaluate(PSC::Context&) {
